@@ -205,6 +205,32 @@ fn one_case(ctx: &mut Ctx, idx: u64, r: &mut Rng) {
 				if let Some(i) = y.iter().position(|f| f.left != 0.0 || f.right != 0.0) {
 					return Some((format!("{}: silence in, frame {} out = ({:e},{:e})", spec.kind_name(), i, y[i].left, y[i].right), detail("silence")));
 				}
+				// a delay or reverb (with whatever is nested in the delay's feedback loop) is cleared by a change of the device's
+				// sample rate: an instance that carried a tail at another rate maps silence to silence afterwards
+				if cleared_by_rate_change(&spec, true) {
+					ctx.count("silence_after_a_rate_change_checks", 1);
+					let before = *r.pick(&crate::probes::SAMPLE_RATES);
+					let mut fx = spec.build();
+					fx.init(before, ibs);
+					let info = crate::probes::mock_info();
+					let mut warm = gen_signal(r, Sig::Noise, 3000, before, 0.5);
+					for c in warm.chunks_mut(ibs) {
+						fx.on_start_processing();
+						fx.process(c, 1.0 / before as f64, &info);
+					}
+					fx.on_change_sample_rate(sr);
+					let mut y = vec![Frame::ZERO; nn];
+					for (k, c) in y.chunks_mut(ibs).enumerate() {
+						fx.on_start_processing();
+						fx.process(c, 1.0 / sr as f64, &info);
+						if k % 64 == 0 {
+							crate::monitors::bump();
+						}
+					}
+					if let Some(i) = y.iter().position(|f| f.left != 0.0 || f.right != 0.0) {
+						return Some((format!("{}: ran at {} Hz with a signal, then the sample rate changed to {} Hz (which clears it): silence in, frame {} out = ({:e},{:e})", spec.kind_name(), before, sr, i, y[i].left, y[i].right), detail("silence after a rate change")));
+					}
+				}
 				None
 			}
 			2 => {
@@ -361,6 +387,17 @@ fn one_case(ctx: &mut Ctx, idx: u64, r: &mut Rng) {
 }
 
 /// coarse parameter cell of a spec (for the distinct count)
+/// top level: a delay or a reverb; nested in a delay's feedback loop: effects that are cleared by a rate change as well
+/// (delay, reverb) or that hold no signal of their own (filters and EQ bands keep their integrator state)
+fn cleared_by_rate_change(s: &FxSpec, top: bool) -> bool {
+	match s {
+		FxSpec::Delay { inner, .. } => inner.iter().all(|x| cleared_by_rate_change(x, false)),
+		FxSpec::Reverb { .. } => true,
+		FxSpec::Volume { .. } | FxSpec::Panning { .. } | FxSpec::Distortion { .. } | FxSpec::Compressor { .. } => !top,
+		FxSpec::Filter { .. } | FxSpec::Eq { .. } => false,
+	}
+}
+
 fn spec_cell(s: &FxSpec) -> String {
 	fn q(x: f64, step: f64) -> i64 {
 		(x / step).floor() as i64
